@@ -19,8 +19,8 @@ def _cases_from_tlc(cfg):
     return cases, r
 
 
-def _validate(trace):
-    r = vlib.validate_once("KeepaliveTrace", "KeepaliveTrace", trace, timeout=1200, raw=True)
+def _validate_one(trace):
+    r = vlib.validate_once("KeepaliveTrace", "KeepaliveTrace", trace, timeout=1500, raw=True)
     out = r["out"]
     bad = []
     for m in re.finditer(r'<<"BAD", "(.*)">>', out):
@@ -30,6 +30,39 @@ def _validate(trace):
         log(out[-3000:])
         raise ToolError("KeepaliveTrace did not run to the end")
     return bad, int(ml.group(1)), r["states"]
+
+
+CHUNK_CASES = 4000
+
+
+def _validate(trace):
+    """TLC validates the trace; a large batch is cut at case boundaries into chunks that are validated side by side
+    (the line numbers in the rejection records are made global again)."""
+    cases = _split_cases(trace)
+    if len(cases) <= CHUNK_CASES:
+        return _validate_one(trace)
+    from concurrent.futures import ThreadPoolExecutor
+    parts, base, off = [], 0, []
+    for k in range(0, len(cases), CHUNK_CASES):
+        path = f"{trace}.part{k // CHUNK_CASES}"
+        n = 0
+        with open(path, "w") as f:
+            for c in cases[k:k + CHUNK_CASES]:
+                f.writelines(c)
+                n += len(c)
+        parts.append(path)
+        off.append(base)
+        base += n
+    bad, lines, states = [], 0, 0
+    with ThreadPoolExecutor(max_workers=6) as ex:
+        for o, (b, n, st) in zip(off, ex.map(_validate_one, parts)):
+            for rec in b:
+                if isinstance(rec, list) and rec and isinstance(rec[0], int):
+                    rec[0] += o
+            bad += b
+            lines += n
+            states += st
+    return bad, lines, states
 
 
 def _split_cases(path):
